@@ -80,10 +80,21 @@ class DirLock:
 
 
 def load_known_findings():
+    """known_findings.json (+ findings_parts/*.json while a property is under construction); never written at run time"""
+    out, seen = [], set()
     p = os.path.join(VERIF, "known_findings.json")
-    if not os.path.exists(p):
-        return []
-    return json.load(open(p))["findings"]
+    if os.path.exists(p):
+        out = list(json.load(open(p))["findings"])
+        seen = {f["id"] for f in out}
+    d = os.path.join(VERIF, "findings_parts")
+    if os.path.isdir(d):
+        for fn in sorted(os.listdir(d)):
+            if fn.endswith(".json"):
+                for f in json.load(open(os.path.join(d, fn))):
+                    if f["id"] not in seen:
+                        seen.add(f["id"])
+                        out.append(f)
+    return out
 
 
 class Check:
